@@ -408,6 +408,9 @@ class TransportRefsContainer(RefsContainer):
 
         value = self.read_loose_ref(name)
         if value is None:
+            # Another updater may have rewritten packed-refs since it was
+            # cached; a compare-and-swap has to see the current contents.
+            self._packed_refs = None
             value = self.get_packed_refs().get(name, ZERO_SHA)
         return value
 
